@@ -51,6 +51,9 @@ def display_slice(x: ir.Value | ir.Node, backward: bool = True, depth_limit: int
 
 
 def get_const_value(value: ir.Value) -> ir.TensorProtocol | None:
+    if value.is_graph_input():
+        # An initializer that is also a graph input is a default the caller may override.
+        return None
     node = value.producer()
     if node is not None:
         optimizer.basic_constant_propagation([node])
